@@ -13,7 +13,9 @@ LEVEL = "model_checking"
 
 TIERS = {
     # NDocs, MaxFaults, MaxCrashes, MaxStarts, cap on schedules replayed
-    "quick": dict(NDocs=2, MaxFaults=1, MaxCrashes=1, MaxStarts=2, cap=3000),
+    "quick": dict(NDocs=2, MaxFaults=1, MaxCrashes=1, MaxStarts=2, cap=3000,
+                  # second pass: two external faults before one killed start (leftovers that only matter once the index is lost too)
+                  extra=dict(NDocs=2, MaxFaults=2, MaxCrashes=1, MaxStarts=2, cap=1500)),
     "thorough": dict(NDocs=3, MaxFaults=2, MaxCrashes=2, MaxStarts=3, cap=40000),
 }
 
@@ -189,6 +191,15 @@ def run(chk):
         rest = [v for v in vecs if v not in kill] if len(vecs) < 20000 else []
         rnd.shuffle(kill)
         vecs = kill[:p["cap"]] + rest[:max(0, p["cap"] - len(kill))]
+    if p.get("extra"):
+        import random
+        q = p["extra"]
+        more = [v for v in emit(chk, q)
+                if sum(1 for h in v["hist"] if h["k"] == "fault") == 2
+                and any(h["k"].startswith("run") and h["what"] != "ready" for h in v["hist"])]
+        total += len(more)
+        random.Random(chk.seed + 1).shuffle(more)
+        vecs = vecs + more[:q["cap"]]
     info, results, events = run_schedules(chk, vecs, p["NDocs"])
     judge(chk, results)
     accepted, rejected = validate_trace(chk, events, info["shipped"], vecs)
